@@ -129,7 +129,7 @@ func runC15(c *Ctx) {
 				if calleeName(cs.Common()) == "internal/counter.IsStackCounter" {
 					continue // the shared test; its own separator is checked at IsStackCounter
 				}
-				ok, got := isNewline(cs.Common().Args[1])
+				ok, got := isNewline(argsOf(cs)[1])
 				r.Check("C15.separator-agreement", short(f.Name())+"/"+calleeName(cs.Common()), mod.Pos(cs.Pos()), ok, "separator must be the newline; got "+got)
 			}
 			r.Check("C15.separator-agreement", short(f.Name())+"/uses the separator ("+role+")", mod.Pos(f.Pos()), n >= 1, "expected a newline "+role+" here")
@@ -185,7 +185,7 @@ func runC15(c *Ctx) {
 	var pcs ssa.Value
 	for _, cs := range callsIn(inc, "runtime.Callers") {
 		for _, in := range instrsOf(inc) {
-			if sl, ok := in.(*ssa.Slice); ok && sl.X == cs.Common().Args[1] && sl.High == ssa.Value(cs.(*ssa.Call)) {
+			if sl, ok := in.(*ssa.Slice); ok && sl.X == argsOf(cs)[1] && sl.High == ssa.Value(cs.(*ssa.Call)) {
 				pcs = sl
 			}
 		}
@@ -212,7 +212,7 @@ func runC15(c *Ctx) {
 				nd := describe(lit["name"])
 				okNew := pcs != nil && strings.HasPrefix(nd, "internal/counter.EncodeStack(") && strings.Contains(nd, "param:c.name")
 				if cl, ok := strip(lit["name"]).(*ssa.Call); ok && pcs != nil {
-					okNew = okNew && cl.Call.Args[0] == pcs
+					okNew = okNew && argsOf(cl)[0] == pcs
 				}
 				r.Check("C15.cache-key", "StackCounter.Inc/new counter is named by EncodeStack(pcs, c.name)", m.Pos(x.Pos()), okNew, "got "+nd)
 				// appended stack entry
@@ -248,7 +248,7 @@ func runC15(c *Ctx) {
 					"a cached counter may be incremented only under eq(entry.pcs, pcs) for the entry it belongs to; value "+describe(v))
 			}
 		}
-		check(cs.Common().Args[0], factsAt(cs), map[ssa.Value]bool{})
+		check(argsOf(cs)[0], factsAt(cs), map[ssa.Value]bool{})
 	}
 	// eq: length equality and element-wise comparison
 	if eq == nil {
@@ -302,7 +302,7 @@ func runC15(c *Ctx) {
 	okMu := false
 	if lock != nil {
 		for _, in := range instrsOf(inc) {
-			if d, ok := in.(*ssa.Defer); ok && calleeName(&d.Call) == "(*sync.Mutex).Unlock" && describe(d.Call.Args[0]) == describe(lock.Common().Args[0]) && precedes(lock, d) {
+			if d, ok := in.(*ssa.Defer); ok && calleeName(&d.Call) == "(*sync.Mutex).Unlock" && describe(argsOf(d)[0]) == describe(argsOf(lock)[0]) && precedes(lock, d) {
 				okMu = true
 			}
 		}
